@@ -133,25 +133,35 @@ type Hit struct {
 
 // App is a Flame instance instrumented to report hits.
 type App struct {
-	F   *flamego.Flame
-	cur *Hit
+	F               *flamego.Flame
+	cur             *Hit
+	defaultNotFound bool
 }
 
 // NewApp builds a Flame with a counting middleware and a marker not-found
 // handler. Registration errors (panics) are returned with their index.
 func NewApp(regs []Reg) (app *App, errAt int, err interface{}) {
-	app = &App{F: flamego.NewWithLogger(io.Discard)}
+	return NewAppOpt(regs, true)
+}
+
+// NewAppOpt is NewApp; with userNotFound false the default not-found handler
+// (http.NotFound) stays in place and Hit.NotFound is inferred by Serve from
+// its response.
+func NewAppOpt(regs []Reg, userNotFound bool) (app *App, errAt int, err interface{}) {
+	app = &App{F: flamego.NewWithLogger(io.Discard), defaultNotFound: !userNotFound}
 	app.F.Use(func(c flamego.Context) {
 		if app.cur != nil {
 			app.cur.Chains++
 		}
 	})
-	app.F.NotFound(func(c flamego.Context) {
-		if app.cur != nil {
-			app.cur.NotFound = true
-		}
-		c.ResponseWriter().WriteHeader(http.StatusNotFound)
-	})
+	if userNotFound {
+		app.F.NotFound(func(c flamego.Context) {
+			if app.cur != nil {
+				app.cur.NotFound = true
+			}
+			c.ResponseWriter().WriteHeader(http.StatusNotFound)
+		})
+	}
 	for i, g := range regs {
 		if e := app.Register(i, g); e != nil {
 			return app, i, e
@@ -217,7 +227,44 @@ func (a *App) Serve(q Req) (hit Hit) {
 	a.F.ServeHTTP(rec, NewRequest(q.M, q.P, q.Header()))
 	hit.Status = rec.Code
 	hit.Body = rec.Body.String()
+	a.inferNotFound(&hit, q.M)
 	return hit
+}
+
+// NewRequestNilHeader builds a request whose Header map is nil.
+func NewRequestNilHeader(method, p string) *http.Request {
+	r := NewRequest(method, p, nil)
+	r.Header = nil
+	return r
+}
+
+// ServeRaw is Serve for a prepared request.
+func (a *App) ServeRaw(req *http.Request) (hit Hit) {
+	hit.Handler = -1
+	a.cur = &hit
+	defer func() {
+		a.cur = nil
+		if r := recover(); r != nil {
+			hit.Panic = r
+		}
+	}()
+	rec := httptest.NewRecorder()
+	a.F.ServeHTTP(rec, req)
+	hit.Status = rec.Code
+	hit.Body = rec.Body.String()
+	a.inferNotFound(&hit, req.Method)
+	return hit
+}
+
+// inferNotFound recognises the response of the default not-found handler
+// (http.NotFound; a HEAD request gets no body).
+func (a *App) inferNotFound(hit *Hit, method string) {
+	if !a.defaultNotFound || hit.Handler >= 0 || hit.Status != http.StatusNotFound {
+		return
+	}
+	if hit.Body == "404 page not found\n" || (method == http.MethodHead && hit.Body == "") {
+		hit.NotFound = true
+	}
 }
 
 // SortedKeys returns the keys of a string map in order.
